@@ -34,21 +34,39 @@ def ser_mapper(node, data):
     d = node.data
     data["type"] = "person"
     data["name"] = d.name
+    if isinstance(d, FalsyPerson):
+        data["falsy"] = True
     return data
 
 
 def ser_mapper_newdict(node, data):
     # a mapper may also return a new dict
-    return {"data": data["data"], "data_id": data.get("data_id"), "type": "person", "name": node.data.name}
+    out = {"data": data["data"], "data_id": data.get("data_id"), "type": "person", "name": node.data.name}
+    if isinstance(node.data, FalsyPerson):
+        out["falsy"] = True
+    return out
+
+
+class FalsyPerson(Person):
+    """a legal data object that happens to be falsy"""
+
+    def __bool__(self):
+        return False
 
 
 def deser_mapper(parent, item):
+    if item.get("falsy"):
+        return FalsyPerson(item["data_id"], item["name"])
     return Person(item["data_id"], item["name"])
 
 
 def run(case, rec):
     flav = case["flavour"]
     fl = Flavour("obj_cb" if flav == "obj" else "str")
+    if flav == "obj" and case.get("falsy"):
+        # every second label is represented by a falsy (but perfectly legal) object
+        orig = fl._make
+        fl._make = lambda label: FalsyPerson("g-" + label, label) if (len(label) + ord(label[0])) % 2 else orig(label)
     tree, nodes = build(case["spec"], flavour=fl)
     if case.get("emptied"):
         # a tree that was filled and emptied again
@@ -73,6 +91,8 @@ def run(case, rec):
             else:
                 d["type"] = "person"
                 d["name"] = n.data.name
+            if isinstance(n.data, FalsyPerson):
+                d["falsy"] = True
         ks = w.kids[id(n)]
         if ks:
             d["children"] = [exp_dict(c) for c in ks]
@@ -111,7 +131,7 @@ def run(case, rec):
 
     def view(wk, n):
         d = n.data
-        val = (d.guid, d.name) if isinstance(d, Person) else d
+        val = (type(d).__name__, d.guid, d.name) if isinstance(d, Person) else d
         return [val, n.data_id, [view(wk, c) for c in wk.kids[id(n)]]]
 
     v1 = [view(w, n) for n in w.kids[id(None)]]
@@ -146,6 +166,22 @@ def hyp_cases(draw, tier):
     case = {"spec": spec, "flavour": flav, "json": draw(st.booleans())}
     if flav == "obj":
         case["newdict"] = draw(st.booleans())
+        case["falsy"] = draw(st.booleans())
+    elif draw(st.sampled_from([0, 0, 1])):
+        # a falsy explicit data_id (0) on one node
+        flat = []
+
+        def collect(nodes):
+            for n in nodes:
+                flat.append(n)
+                collect(n[1])
+
+        collect(spec)
+        if flat:
+            n = flat[draw(st.integers(0, len(flat) - 1))]
+            del n[2:]
+            n.append({"id": 0})
+            gen.fix_sibling_ids(spec)
     if draw(st.sampled_from([0] * 9 + [1])):
         case["emptied"] = draw(st.sampled_from(["clear", "remove"]))
     return case
